@@ -7,6 +7,7 @@ import (
 	"math/rand"
 	"reflect"
 	"sync"
+	"time"
 
 	admissionv1 "k8s.io/api/admission/v1"
 	compbasemetrics "k8s.io/component-base/metrics"
@@ -60,7 +61,11 @@ func C15(seed int64, n int) (*cq.Set, *cq.Interner) {
 			default:
 				s = namespaceScenario(r, marker)
 				s.World.ExpireAfter = nil
+				// request deadlines long enough never to expire inside the dry run, short enough to bound it
 				s.Req.DeadlineIn = nil
+				if d := []time.Duration{0, 0, 1500 * time.Millisecond, 1900 * time.Millisecond, 3 * time.Second}[r.Intn(5)]; d > 0 {
+					s.Req.DeadlineIn = &d
+				}
 			}
 			s.Cfg = cfg
 			s.Marker = marker
@@ -69,7 +74,10 @@ func C15(seed int64, n int) (*cq.Set, *cq.Interner) {
 		long := make([]*admissionv1.AdmissionResponse, len(scs))
 		longShared := make([]string, len(scs))
 		for i := range scs {
-			resp, sh, pan := ll.Serve(&scs[i].Req, &scs[i].World)
+			resp, sh, pan, dl := ll.ServeChecked(&scs[i].Req, &scs[i].World)
+			if dl != "" {
+				set.GoFails = append(set.GoFails, cq.GoFail{What: "on a long-lived instance the dry-run deadline depends on earlier requests: " + dl, Replay: map[string]interface{}{"history": h, "position": i, "cfg": cfg, "request": scs[i].Req, "world": scs[i].World, "earlier_requests": scs[:i]}})
+			}
 			if pan != "" {
 				set.GoFails = append(set.GoFails, cq.GoFail{What: "Validate panicked on a long-lived instance: " + pan, Replay: map[string]interface{}{"request": scs[i].Req, "world": scs[i].World}})
 				continue
@@ -94,7 +102,12 @@ func C15(seed int64, n int) (*cq.Set, *cq.Interner) {
 					// goroutines g and g+8 walk the history in the same order: the same request (same
 					// namespace) is in flight twice at once; the other pairs run different requests
 					i := (k*7 + (g%8)*3) % len(scs)
-					resp, sh, pan := ll.Serve(&scs[i].Req, &scs[i].World)
+					resp, sh, pan, dl := ll.ServeChecked(&scs[i].Req, &scs[i].World)
+					if dl != "" {
+						mu.Lock()
+						set.GoFails = append(set.GoFails, cq.GoFail{What: "under concurrent handling the dry-run deadline depends on other requests: " + dl, Replay: map[string]interface{}{"history": h, "position": i, "cfg": cfg, "request": scs[i].Req, "world": scs[i].World}})
+						mu.Unlock()
+					}
 					if pan != "" || resp == nil {
 						continue
 					}
